@@ -27,6 +27,10 @@ class SimFile:
         self.data.append(s)
         return len(s)
 
+    def writelines(self, lines):
+        for s in lines:
+            self.write(s)
+
     def flush(self):
         pass
 
@@ -70,11 +74,21 @@ class SimFS:
         if o is not None:
             self.fired.append('open')
             raise OSError(o, 'simulated open error', path)
-        if 'w' not in mode:
+        if 'w' not in mode and 'a' not in mode and '+' not in mode:
             raise OSError(_errno.ENOENT, 'No such file', path)
         f = SimFile(self, path, plan)
+        old = self.files.get(path)
+        if old is not None and 'w' not in mode:
+            f.data = [old.content()]         # append / update: what the path held stays
         self.files[path] = f
         return f
+
+    def preload(self, path, text):
+        """the path already exists with this content (left by an earlier run)"""
+        f = SimFile(self, path, {})
+        f.data = [text]
+        f.closed = True
+        self.files[path] = f
 
     def file_object(self):
         f = SimFile(self, '<object>', self.plan or {})
